@@ -496,4 +496,27 @@ def parseSignerKey (p : SignerKeyParser) (hp : HeightParser) (key : Bytes) : Out
 /-- KVStore.Delete on the key-sorted store -/
 def storeDel {α} (k : Bytes) (st : List (Bytes × α)) : List (Bytes × α) := st.filter (fun kv => kv.1 ≠ k)
 
+/-! ### inventory of raw prefix iterations / prefix stores / range iterations (regenerated) -/
+
+inductive SiteKind where
+  | const       -- a constant prefix
+  | param       -- the caller passes the whole prefix
+  | hostFn      -- built by a function of x/xibc/core/host (covered by the template obligations)
+  | sprintf     -- fmt.Sprintf with a non-constant (variable-length) component
+  | concat      -- string concatenation with a non-constant component
+  | fullRange   -- Iterator(nil, nil) over a store (bounded by that store's own prefix)
+  | other
+  deriving DecidableEq, Repr
+
+/-- one site; `terminated` = a prefix built from a variable-length component ends with the separator '/';
+    `known` = the site is listed in the expected inventory (props/C19.json "prefix_sites") -/
+structure PrefixSite where
+  id : String
+  kind : SiteKind
+  terminated : Bool
+  known : Bool
+
+/-- range delete: every entry whose key starts with `p` is removed (what a clear-by-prefix loop does) -/
+def storeClear {α} (p : Bytes) (st : List (Bytes × α)) : List (Bytes × α) := st.filter (fun kv => !hasPrefix kv.1 p)
+
 end TM.Host
